@@ -284,7 +284,9 @@ def items(tier, seed):
     rnd = random.Random(seed + 18)
     rnd.shuffle(lists)
     if tier == "quick":
-        lists = [l for l in lists if len(l) <= 2] + [l for l in lists if len(l) == 3][:16]
+        # always: a whole run, then a split, then a block that starts inside the first part and runs over the second
+        desc = [[0, 3, 2, 1]]
+        lists = [l for l in lists if len(l) <= 2] + desc + [l for l in lists if len(l) == 3][:15]
     else:
         lists = [l for l in lists if len(l) <= 3][:100] + [l for l in lists if len(l) == 4][:20]
     per = 2 if tier == "quick" else 4
@@ -513,7 +515,7 @@ def coverage(agg, tier):
         "rule": "state = one explored path (kind assignment / solver-decided address comparisons) of a harness; obligation = one 'path condition implies ...' query over the symbolic lengths and base",
         "bounds": {"stream": "(4 | 5) instructions, lengths 1..3 bytes each (symbolic), base address symbolic below 2^32-256, kinds plain/control-flow/delayed branch (symbolic)",
                    "sweep": "every start index; all kind assignments without a delayed branch in a delay slot",
-                   "cfg": "blocks = lsweep.getblock at a start index (maximal runs); quick: every ordered list of 1..2 start indices and 16 seeded lists of 3 (4-instruction stream); thorough: 100 seeded ordered lists of 1..3 start indices and 20 seeded lists of 4 (5-instruction stream); all plain/control-flow kind assignments (delay slots: sweep harness only)",
+                   "cfg": "blocks = lsweep.getblock at a start index (maximal runs); quick: every ordered list of 1..2 start indices, the descending list [0,3,2,1] (split, then blocks that start inside the first part and run over the next node) and 15 seeded lists of 3 (4-instruction stream); thorough: 100 seeded ordered lists of 1..3 start indices and 20 seeded lists of 4 (5-instruction stream); all plain/control-flow kind assignments (delay slots: sweep harness only)",
                    "outside": "real decoders (covered by the x86-64 replay of witnesses only), blocks that are not cut from one stream (overlays), func/xfunc nodes, streams longer than the bound"},
         "stubs": symx.STUBS + ["decoder stub (see assumptions)", "AddrCst.__str__ does not print the address"],
         "exhaustive": False,
